@@ -1,0 +1,16 @@
+"""Verification tracing hooks (no-ops unless PGMPY_VERIF=1 and a tracer is installed)."""
+import os
+
+ENABLED = os.environ.get("PGMPY_VERIF") == "1"
+_tracer = None
+
+
+def set_tracer(fn):
+    """Install (or with None remove) a callable ``fn(event_name, **fields)``."""
+    global _tracer
+    _tracer = fn
+
+
+def emit(ev, **fields):
+    if ENABLED and _tracer is not None:
+        _tracer(ev, **fields)
